@@ -470,6 +470,48 @@ pub mod proofs {
         core::mem::forget((d, h));
     }
 
+    /// C09 (a) for the consumer behind `forever()` and the async adapters: the
+    /// `SignalIterator` polled with the blocking `has_signals` callback, exactly as
+    /// `Forever::next` does.  A complete delivery lands at every system call / slot
+    /// access of two consecutive polls (the one that hands out the signal of an
+    /// earlier delivery, and the one that finds its batch exhausted and goes back
+    /// to wait): the consumer never sleeps with that signal unreported.
+    #[kani::proof]
+    #[kani::stub(core::fmt::write, crate::common::no_fmt_write)]
+    #[kani::unwind(6)]
+    pub fn c09_nest_delivery_inside_forever() {
+        let (mut d, h) = mk_delivery(false);
+        arm_with(&mut d, &h, true);
+        unsafe { X::by_count = true };
+        let mut iter = SignalIterator::new(d);
+        fn poll_once(iter: &mut SignalIterator<SignalDelivery<UnixStream, SignalOnly>, SignalOnly>) {
+            match iter.poll_signal(&mut has_signals_blocking) {
+                PollResult::Signal(sig) => note(sig),
+                PollResult::Pending => {}
+                PollResult::Closed => assert!(false, "C11: the iterator reported closed although nobody closed it"),
+                PollResult::Err(e) => core::mem::forget(e),
+            }
+        }
+        full_delivery();
+        unsafe { vshim::HOOKS.interrupt = interrupt_with_delivery };
+        vshim::set_mode_nest(1, 1, 0);
+        poll_once(&mut iter);
+        let first = unsafe { I::yielded_sa };
+        let nested_in_first = vshim::interrupts_taken();
+        // batch exhausted: back to waiting (sleeps, path cut, unless a delivery arrives)
+        poll_once(&mut iter);
+        vshim::set_mode_seq();
+        if unreported() {
+            poll_once(&mut iter);
+        }
+        assert!(!unreported(), "C09: a delivered signal was not obtained by a consumer that keeps polling");
+        assert!(unsafe { I::yielded_other } == 0, "C10: the iterator yielded a signal it was not asked to watch");
+        assert!(unsafe { I::yielded_sa } <= unsafe { X::deliveries_done }, "C10: the iterator has yielded a signal more often than it was delivered");
+        kani::cover!(first == 1 && nested_in_first == 0 && vshim::interrupts_taken() == 1, "the delivery landed inside the poll that found its batch exhausted");
+        kani::cover!(nested_in_first == 1, "the delivery landed inside the poll that handed out the earlier signal");
+        core::mem::forget((iter, h));
+    }
+
     /// C11: close() lands anywhere inside one poll_signal() call of an async adapter.
     #[kani::proof]
     #[kani::stub(core::fmt::write, crate::common::no_fmt_write)]
